@@ -2,9 +2,10 @@ package main
 
 // C43 — draining the pipeline really waits for in-flight blocks.
 // Scenarios: blocks held inside a decode worker, a validate worker, the apply
-// runner or ApplyFunc (or behind a closed gate) while WaitForDrain runs; the
-// holds are released only after WaitForDrain had time to poll several times.
-// Buffers are larger than the number of blocks, so Submit never blocks.
+// runner (before processing / right after the in-order dequeue) or ApplyFunc (or
+// behind a closed gate, or behind an unread results channel) while WaitForDrain
+// runs; the holds are released only after WaitForDrain's own polls have been
+// observed through the hook (event-synchronised, no wall-clock in the verdict).
 
 import (
 	"fmt"
@@ -13,51 +14,130 @@ import (
 )
 
 func init() {
-	register(&Prop{ID: "C43", Gen: genC43, Run: runPipe, Timeout: 120 * time.Second})
+	register(&Prop{ID: "C43", Gen: genC43, Run: runPipe, Timeout: 10 * time.Minute})
 }
 
 func genC43(r *Rand, n int, tier string, emit func(string)) {
 	for i := 0; i < n; i++ {
-		dw := Pick(r, 1, 2, 4, 16, 1+r.Intn(16))
-		vw := Pick(r, 0, 1, 2, 16, r.Intn(17))
-		nb := 1 + r.Intn(12)
-		buf := 64
-		var sb strings.Builder
-		fmt.Fprintf(&sb, "pipe dw=%d vw=%d buf=%d |", dw, vw, buf)
-		rounds := 1 + r.Intn(2)
-		for rd := 0; rd < rounds; rd++ {
-			gated := r.Chance(1, 5)
-			if gated {
-				sb.WriteString(" gate")
-			}
-			held := 0
-			for b := 0; b < nb; b++ {
-				hold := "-"
-				// at most dw / vw blocks can be held inside the workers of a stage
-				// (more would only queue behind them), one by the apply goroutine
-				if rd == 0 && r.Chance(1, 3) {
-					holds := []string{"d", "a", "f"}
-					if vw > 0 {
-						holds = append(holds, "v")
-					}
-					hold = Pick(r, holds...)
-					held++
-				}
-				fmt.Fprintf(&sb, " s:%s:0:%d:%d:%d:%s", pipeKind(r, vw), pipeLat(r), pipeLat(r), pipeLat(r), hold)
-			}
-			if r.Chance(1, 2) {
-				sb.WriteString(" settle pc")
-			}
-			wait := 35
-			if held == 0 && !gated {
-				wait = 2000 // nothing is held: WaitForDrain returns by itself
-			}
-			fmt.Fprintf(&sb, " drain:%d", wait)
-			if r.Chance(1, 2) {
-				sb.WriteString(" pc")
-			}
-			nb = 1 + r.Intn(6)
+		switch r.Intn(8) {
+		case 0:
+			emit(genC43ResultsUnread(r))
+		case 1:
+			emit(genC43ReorderRelease(r))
+		case 2:
+			emit(genC43SplitRead(r))
+		default:
+			emit(genC43Holds(r))
 		}
-		emit(sb.String())
 	}
+}
+
+func c43Blk(r *Rand, vw int, hold string) string {
+	return fmt.Sprintf(" s:%s:0:%d:%d:%d:%s", pipeKind(r, vw), pipeLat(r), pipeLat(r), pipeLat(r), hold)
+}
+
+// blocks held at every kind of hold point while WaitForDrain polls; the holds are released
+// only after two of WaitForDrain's polls have been observed (or it has returned)
+func genC43Holds(r *Rand) string {
+	dw := Pick(r, 1, 2, 4, 16, 1+r.Intn(16))
+	vw := Pick(r, 0, 1, 2, 16, r.Intn(17))
+	nb := 1 + r.Intn(12)
+	var sb strings.Builder
+	fmt.Fprintf(&sb, "pipe dw=%d vw=%d buf=64 |", dw, vw)
+	rounds := 1 + r.Intn(2)
+	for rd := 0; rd < rounds; rd++ {
+		if r.Chance(1, 5) {
+			sb.WriteString(" gate")
+		}
+		for b := 0; b < nb; b++ {
+			hold := "-"
+			if rd == 0 && r.Chance(1, 3) {
+				holds := []string{"d", "a", "q", "f"}
+				if vw > 0 {
+					holds = append(holds, "v")
+				}
+				hold = Pick(r, holds...)
+			}
+			sb.WriteString(c43Blk(r, vw, hold))
+		}
+		if r.Chance(1, 2) {
+			sb.WriteString(" settle pc")
+		}
+		sb.WriteString(" drain:2")
+		if r.Chance(1, 2) {
+			sb.WriteString(" pc")
+		}
+		nb = 1 + r.Intn(6)
+	}
+	return sb.String()
+}
+
+// validation enabled, Results() not read: the results channel fills, the apply goroutine
+// blocks forwarding, validated blocks wait in validatedChan while WaitForDrain polls
+func genC43ResultsUnread(r *Rand) string {
+	// one worker per stage keeps the blocks in order, so that they really queue up in
+	// validatedChan (with more workers the reorder buffer may swallow them in one batch)
+	dw := Pick(r, 1, 1, 1, 2)
+	vw := Pick(r, 1, 1, 1, 4)
+	buf := Pick(r, 1, 1, 2, 3)
+	var sb strings.Builder
+	fmt.Fprintf(&sb, "pipe dw=%d vw=%d buf=%d | rpause", dw, vw, buf)
+	// buf results fit in the channel, one more blocks the apply goroutine, up to buf more
+	// wait in validatedChan (sometimes one beyond: it stays in a validate worker)
+	nb := buf + 1 + 1 + r.Intn(buf)
+	if r.Chance(1, 4) {
+		nb++
+	}
+	for b := 0; b < nb; b++ {
+		fmt.Fprintf(&sb, " s:g:0:0:0:0:-")
+	}
+	sb.WriteString(" settle pc drain:2 pc")
+	return sb.String()
+}
+
+// a block waits in the reorder buffer, is released from it by its predecessor and is then held
+// (right after the dequeue, or inside ApplyFunc) while WaitForDrain polls
+func genC43ReorderRelease(r *Rand) string {
+	dw := Pick(r, 2, 3, 8)
+	vw := Pick(r, 0, 0, 1, 4)
+	var sb strings.Builder
+	fmt.Fprintf(&sb, "pipe dw=%d vw=%d buf=16 |", dw, vw)
+	first := "d1"
+	if vw > 0 && r.Bool() {
+		first = "v1"
+	}
+	fmt.Fprintf(&sb, " s:g:0:0:0:0:%s", first)
+	k := 1 + r.Intn(3)
+	for b := 0; b < k; b++ {
+		hold := "-"
+		if b == 0 || r.Chance(1, 3) {
+			hold = Pick(r, "q2", "f2")
+		}
+		fmt.Fprintf(&sb, " s:%s:0:0:0:0:%s", Pick(r, "g", "g", "g", "d"), hold)
+	}
+	sb.WriteString(" settle pc rel:1 settle pc drain:2 pc")
+	return sb.String()
+}
+
+// a PendingCount call parked between its two reads while blocks are submitted and processed
+func genC43SplitRead(r *Rand) string {
+	dw := Pick(r, 1, 2, 4)
+	vw := Pick(r, 0, 1)
+	var sb strings.Builder
+	fmt.Fprintf(&sb, "pipe dw=%d vw=%d buf=16 |", dw, vw)
+	for k := r.Intn(3); k > 0; k-- {
+		sb.WriteString(c43Blk(r, vw, "-"))
+	}
+	if r.Bool() {
+		sb.WriteString(" settle")
+	}
+	sb.WriteString(" pcbg")
+	for k := 1 + r.Intn(3); k > 0; k-- {
+		sb.WriteString(c43Blk(r, vw, "-"))
+	}
+	if r.Bool() {
+		sb.WriteString(" settle")
+	}
+	sb.WriteString(" pcgo pc drain:2")
+	return sb.String()
 }
